@@ -130,7 +130,8 @@ def new_text_for(rng, target, kind, word):
     if kind == "same":
         return target
     if kind == "multiline":
-        return rng.choice([w + "\nSecond line " + word(), target + "\n" + w, w + "\n\n" + word() + "\n"])
+        return rng.choice([w + "\nSecond line " + word(), target + "\n" + w, w + "\n\n" + word() + "\n",
+                           w + "\n#" + word() + " tag", w + "\n#1 " + word()])
     if kind == "markdown":
         return rng.choice(["**" + w + "** plain", "plain _" + w + "_", "**" + w + "** and _" + word() + "_", "_" + w + "_"])
     if kind == "heading":
